@@ -10,11 +10,28 @@
   return the exit status, the world after the run and the bytes standard
   output accepted.
 
-  Scope: `-version` is excluded from the exit-status theorems (hypothesis
-  `a.version = false`): it is not part of the documented synopsis, and the code
-  prints the version with an unchecked `fmt.Println`, so `age -version >
-  /dev/full` exits 0 (see `version_unchecked` below).  The operating system is
-  modelled as far as `World` goes: no links, no permissions, no other process.
+  `-version` prints the version line through `printVersion`, which exits 1 when
+  the write fails (repaired in /repo: it used to be an unchecked `fmt.Println`,
+  so `age -version > /dev/full` exited 0).  The version line is therefore a
+  result like any other in `exit0_iff_delivered` / `keygen_exit0_iff`; the
+  theorems about decryption, encryption and the same-file refusal keep the
+  hypothesis `a.version = false` simply because `-version` ends the run before
+  any of that is looked at.  The operating system is modelled as far as `World`
+  goes: no links, no permissions, no other process.
+
+  Observations, outside the property text (real behaviour, reproduced by the
+  harness, consistent with the model; on record, not claimed as defects):
+  * an encryption whose INPUT cannot be read leaves an incomplete output behind:
+    `age -r KEY -o out somedir` exits 1 and `out` holds the header only; likewise
+    `age-keygen -y -o new bad-input` exits 1 and leaves an empty `new` (mode 0600),
+    because age-keygen opens its output before it reads its input;
+  * identities are tried in command-line order and the first hard error ends
+    `age.Decrypt`: `age -d -j nonesuch -i key f` fails (the plugin cannot be
+    started) while `age -d -i key -j nonesuch f` succeeds;
+  * the same-file check is lexical while the kernel resolves paths: `-o
+    missing/../x` with input `x` is refused as the same file although the kernel
+    could not even open that spelling, and `-o missing/../out` passes the check
+    and then fails in `os.Create` (both exit non-zero, nothing is touched).
 -/
 import Proofs.CliMain
 import Proofs.CliKeygen
@@ -25,45 +42,82 @@ open Cli
 
 /-! ## age -/
 
-/-- Exit status 0 exactly when the flags are valid and nothing names a file in
+/-- Exit status 0 exactly when the complete result is what the output now
+    holds.  With `-version` the result is the version line and the output is
+    standard output.  Otherwise: the flags are valid and nothing names a file in
     use (`prepare` yields an output destination), the operation is one that
     succeeds (`operation` yields a plan with a complete result: every key file
     parses, `age.Decrypt` returns a reader that reaches the end, or encryption
     gets going and the input can be read), and that complete result is what the
     output now holds: the `-o` file (closed without error) has exactly that
     content, or standard output took exactly those bytes. -/
-theorem exit0_iff_delivered (a : Args) (w : World) (o : Oracle) (hv : a.version = false) (ho : o.WF) :
+theorem exit0_iff_delivered (a : Args) (w : World) (o : Oracle) (ho : o.WF) :
     (run a w o).exit = 0 ↔
-      a.noArgs = false ∧ ∃ dest plan result,
-        prepare a w = .ok dest ∧ operation a w o = .ok plan ∧ plan.complete = some result ∧
-        Holds dest w (run a w o) result := by
+      a.noArgs = false ∧
+      ((a.version = true ∧ Holds .stdout w (run a w o) o.versionLine) ∨
+       (a.version = false ∧ ∃ dest plan result,
+          prepare a w = .ok dest ∧ operation a w o = .ok plan ∧ plan.complete = some result ∧
+          Holds dest w (run a w o) result)) := by
   unfold run
   cases hn : a.noArgs with
   | true => simp
   | false =>
-    simp only [hv, Bool.false_eq_true, if_false, true_and]
-    cases hp : prepare a w with
-    | error e => simp
-    | ok dest =>
-      cases hop : operation a w o with
+    cases hv : a.version with
+    | true =>
+      simp only [Bool.false_eq_true, if_false, if_true, true_and, false_and, or_false, Bool.true_eq_false]
+      exact (printVersion_spec w o.versionLine).2.1
+    | false =>
+      simp only [Bool.false_eq_true, if_false, true_and, false_and, false_or]
+      cases hp : prepare a w with
       | error e => simp
-      | ok plan =>
-        simp only
-        rw [execute_exit0_iff dest plan w (fun h => prepare_buffered a w (h ▸ hp))
-          (operation_enc_ne a w o ho plan hop)]
-        constructor
-        · intro ⟨result, hc, hh⟩
-          exact ⟨dest, plan, result, rfl, rfl, hc, hh⟩
-        · intro ⟨dest', plan', result, hd, hpl, hc, hh⟩
-          simp only [Except.ok.injEq] at hd hpl
-          subst hd; subst hpl
-          exact ⟨result, hc, hh⟩
+      | ok dest =>
+        cases hop : operation a w o with
+        | error e => simp
+        | ok plan =>
+          simp only
+          rw [execute_exit0_iff dest plan w (fun h => prepare_buffered a w (h ▸ hp))
+            (operation_enc_ne a w o ho plan hop)]
+          constructor
+          · intro ⟨result, hc, hh⟩
+            exact ⟨dest, plan, result, rfl, rfl, hc, hh⟩
+          · intro ⟨dest', plan', result, hd, hpl, hc, hh⟩
+            simp only [Except.ok.injEq] at hd hpl
+            subst hd; subst hpl
+            exact ⟨result, hc, hh⟩
+
+/-- `-version` to an output that rejects or cannot take the whole line (/dev/full,
+    a pipe closing early, RLIMIT_FSIZE): the exit status is not 0; the world is
+    untouched and what did get out is a prefix of the line. -/
+theorem version_output_failure_nonzero (a : Args) (w : World) (o : Oracle) (hn : a.noArgs = false)
+    (hv : a.version = true) :
+    (OutputFails w o.versionLine .stdout → (run a w o).exit ≠ 0) ∧
+    (run a w o).world = w ∧ (run a w o).stdout <+: o.versionLine := by
+  have hrun : run a w o = printVersion w o.versionLine := by simp [run, hn, hv]
+  rw [hrun]
+  obtain ⟨hw, hiff, hpre⟩ := printVersion_spec w o.versionLine
+  refine ⟨?_, hw, hpre⟩
+  intro hf h0
+  have hh := hiff.1 h0
+  simp only [Holds] at hh
+  cases hf with
+  | stdoutFull hso => exact hh.2 hso
+  | stdoutCap c hso hlt =>
+    have : (printVersion w o.versionLine).stdout = (accept (some c) 0 o.versionLine).1 := by
+      simp [printVersion, Proc.writeStdout, Proc.result, hso]
+    rw [this, accept_zero_some] at hh
+    have hnle : ¬ o.versionLine.length ≤ c := by omega
+    simp only [hnle, if_false] at hh
+    have := congrArg List.length hh.1
+    simp only [List.length_take] at this
+    omega
 
 /-- in particular an exit status of 0 means the flags passed main's switch -/
 theorem exit0_flags_valid (a : Args) (w : World) (o : Oracle) (hv : a.version = false) (ho : o.WF)
     (h : (run a w o).exit = 0) :
     a.noArgs = false ∧ a.positional.length ≤ 1 ∧ flagCheck a = none := by
-  obtain ⟨hn, dest, _, _, hp, _⟩ := (exit0_iff_delivered a w o hv ho).1 h
+  obtain ⟨hn, hcase⟩ := (exit0_iff_delivered a w o ho).1 h
+  rcases hcase with ⟨hv', _⟩ | ⟨_, dest, _, _, hp, _⟩
+  · rw [hv] at hv'; exact Bool.noConfusion hv'
   have := prepare_ok_valid a w dest hp
   exact ⟨hn, this.1, this.2.1⟩
 
@@ -168,8 +222,8 @@ theorem only_output_changes (a : Args) (w : World) (o : Oracle) (u : Path)
     simp only [Bool.false_eq_true, if_false]
     cases hver : a.version with
     | true =>
-      simp only [if_true, Proc.result, Proc.writeStdout]
-      cases w.stdout <;> rfl
+      simp only [if_true]
+      rw [(printVersion_spec w o.versionLine).1]
     | false =>
       simp only [Bool.false_eq_true, if_false]
       cases hp : prepare a w with
@@ -224,18 +278,29 @@ theorem keygen_no_overwrite (a : KArgs) (w : World) (o : KOracle) (t : Path) (hv
   rw [krun_uncreatable a w o hv hout (createExcl_exists w a.output t hr hg)]
   exact ⟨rfl, rfl, rfl⟩
 
-/-- Exit status 0 exactly when the arguments are valid, the input (in `-y`
-    mode) opens and parses, and the complete result is what the output holds:
-    standard output took exactly those bytes, or the `-o` path did not exist
-    and is now a regular file with mode `0600 &^ umask` holding exactly them. -/
-theorem keygen_exit0_iff (a : KArgs) (w : World) (o : KOracle) (hv : a.version = false) (ho : o.WF) :
+/-- Exit status 0 exactly when the arguments are valid and the complete result
+    is what the output holds. With `-version`: standard output took the whole
+    version line. Otherwise the input (in `-y` mode) opens and parses, and
+    standard output took exactly the result, or the `-o` path did not exist and
+    is now a regular file with mode `0600 &^ umask` holding exactly it. -/
+theorem keygen_exit0_iff (a : KArgs) (w : World) (o : KOracle) (ho : o.WF) :
     (krun a w o).exit = 0 ↔
-      kargsValid a = true ∧ ∃ segs, koperation a (kworld1 a w) o = some segs ∧
-        KHolds a w (krun a w o) segs.flatten := by
+      kargsValid a = true ∧
+      ((a.version = true ∧ Holds .stdout w (krun a w o) o.versionLine) ∨
+       (a.version = false ∧ ∃ segs, koperation a (kworld1 a w) o = some segs ∧
+          KHolds a w (krun a w o) segs.flatten)) := by
   cases hargs : kargsValid a with
   | false => simp [krun_invalid a w o hargs]
   | true =>
     simp only [true_and]
+    cases hv : a.version with
+    | true =>
+      have hrun : krun a w o = printVersion w o.versionLine := by simp [krun, hargs, hv]
+      simp only [or_false, true_and, Bool.true_eq_false, false_and]
+      rw [hrun]
+      exact (printVersion_spec w o.versionLine).2.1
+    | false =>
+    simp only [Bool.false_eq_true, false_and, false_or, true_and]
     by_cases hout : a.output = []
     · -- standard output
       obtain ⟨_, h⟩ := krun_stdout a w o hv hargs hout
@@ -420,10 +485,13 @@ example : (run (decArgs pAbsKey) w0 o0).exit = 1 := by decide
 example : (run { recipients := [[97, 103, 101, 49]], positional := [nIn], output := nOut } w0 o0).world.get
     [nT, nOut] = .file [5, 6, 7, 8] 0o644 := by decide
 
-/-- `-version` is printed with an unchecked Println: exit 0 although /dev/full took nothing.
-    This is why the exit-status theorems carry `a.version = false`. -/
-theorem version_unchecked : (run { version := true } { w0 with stdout := .devFull } o0).exit = 0 ∧
+/-- `-version` to /dev/full exits non-zero (it used to exit 0: the defect repaired in /repo) -/
+theorem version_to_devfull_nonzero : (run { version := true } { w0 with stdout := .devFull } o0).exit = 1 ∧
     (run { version := true } { w0 with stdout := .devFull } o0).stdout = [] := by decide
+
+/-- ... to a pipe that closes after 3 bytes as well, and to a pipe it exits 0 with the whole line -/
+example : (run { version := true } { w0 with stdout := .limited (some 3) } o0).exit = 1 ∧
+    (run { version := true } w0 o0).exit = 0 ∧ (run { version := true } w0 o0).stdout = devel := by decide
 
 abbrev line1 : Bytes := [97, 103, 101, 49, 97, 10]    -- "age1a\n"
 abbrev line2 : Bytes := [97, 103, 101, 49, 98, 10]    -- "age1b\n"
@@ -449,6 +517,10 @@ example : (krun { output := nOld } w0 k0).exit = 1 ∧
 example : (krun { convert := true, positional := [nKey] } { w0 with stdout := .limited (some 8) } k0).exit = 1 ∧
     (krun { convert := true, positional := [nKey] } { w0 with stdout := .limited (some 8) } k0).stdout =
       [97, 103, 101, 49, 97, 10, 97, 103] := by decide
+
+/-- age-keygen -version to /dev/full: non-zero -/
+example : (krun { version := true } { w0 with stdout := .devFull } k0).exit = 1 ∧
+    (krun { version := true } w0 k0).exit = 0 := by decide
 
 end Examples
 
